@@ -60,7 +60,7 @@ static void threads_setup(void)
 
 #define D(w, p, n) ((w)->digest = hash_bytes((w)->digest, (p), (n)))
 #define DI(w, v) do { int64_t _v = (v); D(w, &_v, 8); } while (0)
-#define DI1(w, v) do { int64_t _v = (v); D(w, &_v, 8); if (_v != 1) wfail(w, #v); } while (0)   /* must succeed */
+#define DI1(w, v) do { int64_t _v = (v); D(w, &_v, 8); if (_v != 1) { wfail(w, #v); goto next_op; } } while (0)   /* must succeed; what follows would use its output */
 static void wfail(Worker *w, const char *what) { if (!w->failed) { w->failed = 1; snprintf(w->failed_what, sizeof(w->failed_what), "%s", what); } }
 
 static void script_task(void *arg)
@@ -92,29 +92,29 @@ static void script_task(void *arg)
 			DI(w, sm4_gcm_encrypt(&k, iv, 12, key, 13, buf, n, out, 16, tag)); D(w, out, n); D(w, tag, 16);
 			DI(w, sm4_gcm_decrypt(&k, iv, 12, key, 13, out, n, tag, 16, back)); if (memcmp(back, buf, n)) wfail(w, "sm4-gcm round trip"); break; }
 		case 5: { ZUC_STATE z; zuc_init(&z, key, iv); zuc_encrypt(&z, buf, n, out); D(w, out, n); break; }
-		case 6: { SM2_KEY k; uint8_t pub[64]; DI(w, sm2_key_generate(&k)); sm2_z256_point_to_bytes(&k.public_key, pub); D(w, pub, 64);
+		case 6: { SM2_KEY k; uint8_t pub[64]; DI1(w, sm2_key_generate(&k)); sm2_z256_point_to_bytes(&k.public_key, pub); D(w, pub, 64);
 			uint8_t sig[SM2_MAX_SIGNATURE_SIZE]; size_t sl = 0;
 			DI(w, sm2_sign(&k, buf, sig, &sl)); D(w, sig, sl); DI(w, sm2_verify(&k, buf, sig, sl));
 			sig[sl / 2] ^= 1; DI(w, sm2_verify(&k, buf, sig, sl)); break; }
-		case 7: { SM2_KEY k; DI(w, sm2_key_generate(&k));
+		case 7: { SM2_KEY k; DI1(w, sm2_key_generate(&k));
 			SM2_SIGN_CTX sc; SM2_VERIFY_CTX vc; uint8_t sig[SM2_MAX_SIGNATURE_SIZE]; size_t sl = 0;
-			DI(w, sm2_sign_init(&sc, &k, SM2_DEFAULT_ID, SM2_DEFAULT_ID_LENGTH)); DI(w, sm2_sign_update(&sc, buf, n)); DI(w, sm2_sign_finish(&sc, sig, &sl)); D(w, sig, sl);
-			DI(w, sm2_verify_init(&vc, &k, SM2_DEFAULT_ID, SM2_DEFAULT_ID_LENGTH)); DI(w, sm2_verify_update(&vc, buf, n)); DI(w, sm2_verify_finish(&vc, sig, sl)); break; }
+			DI1(w, sm2_sign_init(&sc, &k, SM2_DEFAULT_ID, SM2_DEFAULT_ID_LENGTH)); DI(w, sm2_sign_update(&sc, buf, n)); DI(w, sm2_sign_finish(&sc, sig, &sl)); D(w, sig, sl);
+			DI1(w, sm2_verify_init(&vc, &k, SM2_DEFAULT_ID, SM2_DEFAULT_ID_LENGTH)); DI(w, sm2_verify_update(&vc, buf, n)); DI(w, sm2_verify_finish(&vc, sig, sl)); break; }
 		case 8: { SM2_KEY k; uint8_t ct[SM2_MAX_CIPHERTEXT_SIZE], pt[256]; size_t cl = 0, pl = 0, m = n % 200 + 1;
-			DI(w, sm2_key_generate(&k)); DI(w, sm2_encrypt(&k, buf, m, ct, &cl)); D(w, ct, cl);
+			DI1(w, sm2_key_generate(&k)); DI(w, sm2_encrypt(&k, buf, m, ct, &cl)); D(w, ct, cl);
 			DI(w, sm2_decrypt(&k, ct, cl, pt, &pl)); if (pl != m || memcmp(pt, buf, m)) wfail(w, "sm2 enc round trip"); break; }
 		case 9: { SM2_KEY k; uint8_t der[512], *p = der; const uint8_t *cp = der; size_t dl = 0; SM2_KEY k2;
-			DI(w, sm2_key_generate(&k)); DI(w, sm2_private_key_info_to_der(&k, &p, &dl)); D(w, der, dl);
+			DI1(w, sm2_key_generate(&k)); DI(w, sm2_private_key_info_to_der(&k, &p, &dl)); D(w, der, dl);
 			const uint8_t *attrs; size_t al; DI(w, sm2_private_key_info_from_der(&k2, &attrs, &al, &cp, &dl));
 			if (memcmp(&k, &k2, sizeof(k))) wfail(w, "key der round trip"); break; }
 		case 10: { /* X.509: issue, parse, verify */
 			SM2_KEY ck, lk; Ident ca, leaf; int vr;
-			DI(w, sm2_key_generate(&ck)); DI(w, sm2_key_generate(&lk));
+			DI1(w, sm2_key_generate(&ck)); DI1(w, sm2_key_generate(&lk));
 			/* validity periods that start and end in different (leap and non-leap) years per task */
 			int64_t nb = SIM_T0 - 10 - (int64_t)(w->id % 4) * 400 * 86400LL, na = SIM_T0 + 86400 + (int64_t)(w->id % 3) * 500 * 86400LL;
 			CertSpec cs = { "T CA", 1, -1, X509_KU_KEY_CERT_SIGN, nb, na };
 			CertSpec ls = { "t.leaf", 0, -1, X509_KU_DIGITAL_SIGNATURE, nb, na };
-			DI(w, creds_issue(&cs, &ck, NULL, &ca)); DI(w, creds_issue(&ls, &lk, &ca, &leaf)); D(w, leaf.cert, leaf.certlen);
+			DI1(w, creds_issue(&cs, &ck, NULL, &ca)); DI1(w, creds_issue(&ls, &lk, &ca, &leaf)); D(w, leaf.cert, leaf.certlen);
 			DI(w, x509_certs_verify(leaf.cert, leaf.certlen, X509_cert_chain_server, ca.cert, ca.certlen, 4, &vr)); break; }
 		case 11: { /* CMS sign / verify */
 			uint8_t *cms = w->cmsbuf;
@@ -142,7 +142,7 @@ static void script_task(void *arg)
 		case 16: { /* base64 and hex codecs */
 			BASE64_CTX bc; uint8_t b64[2304], back[2048]; int l1 = 0, l2 = 0, l3 = 0, l4 = 0; size_t m = n % 1200 + 1;
 			base64_encode_init(&bc); DI1(w, base64_encode_update(&bc, buf, (int)m, b64, &l1)); base64_encode_finish(&bc, b64 + l1, &l2); D(w, b64, (size_t)(l1 + l2));
-			base64_decode_init(&bc); DI1(w, base64_decode_update(&bc, b64, l1 + l2, back, &l3)); DI1(w, base64_decode_finish(&bc, back + l3, &l4));
+			base64_decode_init(&bc); { int rv = base64_decode_update(&bc, b64, l1 + l2, back, &l3); DI(w, rv); if (rv < 0) { wfail(w, "base64_decode_update"); goto next_op; } } DI1(w, base64_decode_finish(&bc, back + l3, &l4));
 			if ((size_t)(l3 + l4) != m || memcmp(back, buf, m)) wfail(w, "base64 round trip");
 			char hx[129]; size_t hl = 0; for (int k = 0; k < 64; k++) snprintf(hx + 2 * k, 3, "%02x", buf[k]);
 			DI1(w, hex_to_bytes(hx, 128, back, &hl)); if (hl != 64 || memcmp(back, buf, 64)) wfail(w, "hex round trip"); break; }
@@ -188,7 +188,7 @@ static void script_task(void *arg)
 			int64_t tu = SIM_T0 - 5 - (int64_t)(w->id % 5) * 300 * 86400LL;
 			DI1(w, x509_crl_sign_to_der(1, OID_sm2sign_with_sm3, name, namelen, tu, tu + 86400 * 900LL, NULL, 0, NULL, 0,
 				&ck, SM2_DEFAULT_ID, SM2_DEFAULT_ID_LENGTH, &p, &len)); D(w, crl, len);
-			DI1(w, x509_signed_verify(crl, len, &ck, SM2_DEFAULT_ID, SM2_DEFAULT_ID_LENGTH)); DI1(w, x509_crl_check(crl, len, (time_t)SIM_T0)); break; }
+			DI1(w, x509_signed_verify(crl, len, &ck, SM2_DEFAULT_ID, SM2_DEFAULT_ID_LENGTH)); DI(w, x509_crl_check(crl, len, (time_t)SIM_T0)); break; }
 		case 22: { /* printing into a caller-designated stream: a certificate of this task (its own validity period) and a shared chain */
 			const CredSet *cr = creds_get(2, 0); char *txt = NULL; size_t tl = 0;
 			SM2_KEY pk; Ident own;
@@ -216,12 +216,13 @@ static void script_task(void *arg)
 			break; }
 		default: { /* ECDH between two fresh keys: both sides must agree */
 			SM2_KEY a, b; SM2_Z256_POINT s1, s2; uint8_t x1[64], x2[64];
-			DI(w, sm2_key_generate(&a)); DI(w, sm2_key_generate(&b));
+			DI1(w, sm2_key_generate(&a)); DI1(w, sm2_key_generate(&b));
 			DI(w, sm2_do_ecdh(&a, &b.public_key, &s1)); DI(w, sm2_do_ecdh(&b, &a.public_key, &s2));
 			sm2_z256_point_to_bytes(&s1, x1); sm2_z256_point_to_bytes(&s2, x2); D(w, x1, 64);
 			if (memcmp(x1, x2, 64)) wfail(w, "ecdh agreement");
 			break; }
 		}
+	next_op:
 		w->ops_done++;
 	}
 }
@@ -268,6 +269,13 @@ static void threads_gen(Plan *p, uint64_t base_seed, uint64_t variant, int tier)
 	 * far more often than in a mixed workload, which is what function-local shared state needs to show */
 	p->op = rng_chance(&g, 1, 3) ? 1 + rng_below(&g, 24) : 0;
 	if (rng_chance(&g, 1, 4)) { p->afail_node = -2; p->afail_at = rng_below(&g, 3); p->afail_rest = rng_chance(&g, 2, 3); }
+	else if (rng_chance(&g, 1, 4)) {
+		int pairs = (int)p->victim; if (pairs * 2 > p->ntasks) pairs = (int)p->ntasks / 2;
+		if (p->ntasks - pairs * 2 >= 2) {
+			p->efail_node = pairs * 2 + rng_below(&g, (uint32_t)(p->ntasks - pairs * 2));
+			p->efail_at = rng_below(&g, 4); p->efail_rest = rng_chance(&g, 1, 2); p->efail_errno = 5;
+		}
+	}
 }
 
 static uint64_t g_seq_digest[MAX_WT];
@@ -301,6 +309,10 @@ static void threads_exec(const Plan *p, int preempt)
 		 * depends on the schedule, a script's results never do */
 		if (i >= pairs * 2 && p->afail_at >= 0 && (p->afail_node == -2 || p->afail_node == i)) {
 			g_sim.nodes[i].afail_at = p->afail_at; g_sim.nodes[i].afail_rest = (int)p->afail_rest;
+		}
+		/* the entropy source of ONE script task fails: that task's operations fail, nobody else's may */
+		if (i >= pairs * 2 && p->efail_at >= 0 && p->efail_node == i) {
+			g_sim.nodes[i].efail_at = p->efail_at; g_sim.nodes[i].efail_rest = (int)p->efail_rest; g_sim.nodes[i].efail_errno = (int)p->efail_errno;
 		}
 		if (i < pairs * 2) {
 			int ci = i / 2, side = i % 2;
@@ -341,7 +353,7 @@ static void threads_run(const Plan *p, RunResult *r)
 	for (int i = 0; i < nt; i++) { g_seq_digest[i] = g_w[i].digest; g_seq_failed[i] = g_w[i].failed; }
 	int base_fail = -1;
 	for (int i = 0; i < nt; i++) if (g_w[i].failed) base_fail = i;
-	int afail = p->afail_at >= 0;     /* with allocator failures a script op may fail, alone and under preemption alike */
+	int afail = p->afail_at >= 0 || p->efail_at >= 0;     /* with allocator / entropy failures a script op may fail, alone and under preemption alike */
 	if (base_fail >= 0 && !afail) {
 		r->twin_failed = 1;
 		snprintf(r->extra, sizeof(r->extra), "twin_failed=\"task %d: %s\"", base_fail, g_w[base_fail].failed_what);
@@ -350,10 +362,20 @@ static void threads_run(const Plan *p, RunResult *r)
 	threads_exec(p, 1);
 	r->nontrivial = g_hook_yields > 0;
 	r->nontrivial_id = g_sim.ileave;
-	if (afail) {
+	if (p->afail_at >= 0) {
 		int fired = 0;
 		for (int i = 0; i < nt; i++) fired += g_sim.nodes[i].afail_fired;
 		r->faults_cfg[F_AFAIL] = 1; r->faults_fired[F_AFAIL] = fired > 0;
+	}
+	if (p->efail_at >= 0) {
+		/* the healthy tasks must not have seen a single failed operation (checked against their own baseline below;
+		 * in the baseline itself a task other than the starved one that failed means the failure spread) */
+		for (int i = 0; i < nt; i++)
+			if (i != p->efail_node && !g_w[i].ep && g_seq_failed[i]) {
+				rr_violation(r, "x", "task %d failed an operation (%s) although only task %d's entropy source fails", i, g_w[i].failed_what, (int)p->efail_node);
+				snprintf(r->vclass, sizeof(r->vclass), "seq_diverge:failure_spread");
+				return;
+			}
 	}
 	snprintf(r->extra, sizeof(r->extra), "proto=%s mutual=%d depth=%d tasks=%d pairs=%d mean=%d pct=%d hook_calls=%llu preemptions=%llu",
 		g_proto_names[p->proto], (int)p->mutual, (int)p->depth, nt, (int)p->victim, (int)p->preempt_mean, (int)p->pct_d,
